@@ -40,6 +40,7 @@ REQUIRED_CLAUSES = ['carrier-independent', 'still-rejected-after-a-caught-eat_ch
 ASSUMPTIONS = ['reference verdict derived from the trait vector the generator used, per the statement\'s own list',
                'DONT-CARE: qcow2 v2 with bytes where v3 keeps feature bits, v3 with only bits 0/1/3, descriptors that do '
                'not fit their sector count, lines after a NUL in a VMDK descriptor']
+INTERPRETER_FLAGS = [[], ['-O'], [], ['-bb']]
 SHARDS = {'quick': 8, 'thorough': 16}
 MIN_DISTINCT = {'quick': 5000, 'thorough': 50000}
 LEVEL_TEXT = ('Exploration with a trait-derived three-valued oracle, exhaustive over the bounded MBR family, the 64 single '
@@ -717,6 +718,16 @@ def run(ctx):
     for fv in (2, 3, 0):
         specs.append({'gen': 'vmdk', 'params': {'footer': True, 'footer_over': {'ver': fv}, 'min_total': 0}})
     specs.append({'gen': 'vmdk', 'params': {'desc_num': 2048, 'footer': True, 'min_total': 0}})      # clean, large descriptor
+    # descriptors that fill the whole window the inspector reads, the offending (or a harmless) line at its very end:
+    # every byte of the window counts, also the last sector of a 1 MiB descriptor
+    bad_lines = [['RW 2048 FLAT "/etc/passwd" 0', False], ['RDONLY 1 SPARSE "../x.vmdk"', False], ['surprise', False],
+                 ['# harmless comment', True], ['ddb.adapterType = "ide"', True]]
+    for dn in ((2048, 4096, 2047, 3000, 40) if not ctx.quick else (2048, 2047, 40, rng.choice([4096, 3000, 2049]))):
+        for back in ((0, 1, 30, 255, 480, 510, 511, 512, 600) if not ctx.quick else (0, rng.choice([1, 30, 255]), rng.choice([480, 510, 511]), 600)):
+            for line in (bad_lines if not ctx.quick else [bad_lines[rng.randrange(3)], bad_lines[3 + rng.randrange(2)]]):
+                specs.append({'gen': 'vmdk', 'params': {'desc_num': dn, 'min_total': 0, 'window_tail_line': line,
+                                                        'window_tail_back': back,
+                                                        'ctype': rng.choice(['monolithicSparse', 'streamOptimized'])}})
     specs += other_specs(rng, ctx.pick(2000, 150000))
     specs += text_specs(rng, ctx.pick(150, 10000))
     cli_budget = ctx.pick(32, 800)
